@@ -163,6 +163,10 @@ def truncated_svd(
 
     left = svd[0]
     left = left[..., :rank]
+    # Reciprocals of the kept singular values; a zero one (rank-deficient input whose rank was capped from outside, e.g.
+    # a zero element of a batch) belongs to a zero row/column of the product and must not turn it into NaN
+    kept = svd[1][..., :rank]
+    inv = torch.where(kept > 0, 1.0 / kept, torch.zeros_like(kept))
 
     start = time.time()
     if singular_vectors == "left":
@@ -172,18 +176,14 @@ def truncated_svd(
             if algorithm == "svd":
                 M2 = Vh[..., :rank, :]  # Orthonormal also when singular values are at noise level
             else:
-                M2 = (
-                    (1.0 / svd[1][..., :rank])[..., None]
-                    * left.permute(dims_permute)
-                    @ M
-                )
+                M2 = inv[..., None] * left.permute(dims_permute) @ M
             if batch:
                 left = torch.einsum("bij,bj->bij", left, svd[1][..., :rank])
             else:
                 left = left * svd[1][:rank]
     else:
         if left_ortho:
-            M2 = M @ (left * (1.0 / svd[1][..., :rank])[..., None, :])
+            M2 = M @ (left * inv[..., None, :])
             left, M2 = M2, (left @ (torch.diag(svd[1][..., :rank]))).permute(
                 dims_permute
             )
